@@ -1,4 +1,5 @@
 import TflModel.Lemmas.LatticeExec
+import TflModel.Lemmas.TrapezoidFold
 /-!
 # C01 — the Lattice weight constraint (strict mode) / `finalize_constraints` return kernels that
 meet every strict shape constraint
@@ -11,9 +12,11 @@ Proved at full strength for the configuration classes
   (A) any monotonicities, any number of Edgeworth trusts of either direction, any bounds,
       no trapezoid trusts                                   — `C01_strict_edgeworth_class`
   (A0) no trusts at all (monotonicity + bounds)             — instance of (A)
-and transported to the executable table model (`C01_exec_edgeworth_class`).
-Configurations with trapezoid trusts are covered by the correspondence + oracle of every run;
-inside them the class "Edgeworth present ∧ trapezoid with monotone conditional axis ∧ a third
+  (B) any monotonicities, any number of trapezoid trusts of either direction (shared conditional
+      axes allowed), any bounds, no Edgeworth trusts        — `C01_strict_trapezoid_class`
+and transported to the executable table model (`C01_exec_edgeworth_class`, `C01_exec_trapezoid_class`).
+Configurations with BOTH Edgeworth and trapezoid trusts are covered by the correspondence + oracle
+of every run; inside them the class "Edgeworth present ∧ trapezoid with monotone conditional axis ∧ a third
 axis" genuinely violates the property (finding F-C01-a): `C01_counter_witness`.
 `C01_full` keeps the unrestricted statement visible.
 -/
@@ -23,18 +26,6 @@ open Tfl Tfl.Lat
 /-- in-box bounds -/
 def InBounds (sizes : List Nat) (lo hi : Option ℚ) (w : W) : Prop :=
   ∀ idx, InRange sizes idx → (∀ l, lo = some l → l ≤ w idx) ∧ (∀ h, hi = some h → w idx ≤ h)
-
-/-- the trapezoid inequalities of one trust -/
-def TrapOK (sizes : List Nat) (tr : Trust) (w : W) : Prop :=
-  ∀ idx, InRange sizes idx → ∀ j, j + 1 < sizes.getD tr.cond 0 →
-    if tr.pos then
-      gat w tr.main tr.cond 0 (j+1) idx ≤ gat w tr.main tr.cond 0 j idx ∧
-      gat w tr.main tr.cond (sizes.getD tr.main 0 - 1) j idx ≤
-        gat w tr.main tr.cond (sizes.getD tr.main 0 - 1) (j+1) idx
-    else
-      gat w tr.main tr.cond 0 j idx ≤ gat w tr.main tr.cond 0 (j+1) idx ∧
-      gat w tr.main tr.cond (sizes.getD tr.main 0 - 1) (j+1) idx ≤
-        gat w tr.main tr.cond (sizes.getD tr.main 0 - 1) j idx
 
 /-- every strict constraint of the configuration, for one unit -/
 def Strict (c : Cfg) (w : W) : Prop :=
@@ -176,6 +167,76 @@ theorem C01_exec_edgeworth_class (c : Cfg) (hwf : CfgWF c) (hnt : c.trapezoid = 
     by rw [hnt]; exact fun _ h => (by cases h), fun idx hr => ?_⟩
   rw [hag idx hr]; exact h4 idx hr
 
+/-- what `verify_hyperparameters` guarantees about the trapezoid trusts: lattice sizes ≥ 2 and no
+feature is both a main and a conditional feature -/
+structure TrapWF (c : Cfg) : Prop where
+  sizes : ∀ tr ∈ c.trapezoid, 2 ≤ c.sizes.getD tr.main 0 ∧ 1 ≤ c.sizes.getD tr.cond 0
+  roles : ∀ a ∈ c.trapezoid, ∀ b ∈ c.trapezoid, b.cond ≠ a.main
+
+/-- **C01 (class B): monotonicity + any trapezoid trusts + any bounds, no Edgeworth trusts.**
+For every accepted configuration of this class and EVERY input kernel, the strict finalisation
+followed by the final clip returns a kernel that is monotone along every monotone dimension,
+satisfies every trapezoid trust inequality (also for trusts sharing a conditional feature) and
+lies within the output bounds. -/
+theorem C01_strict_trapezoid_class (c : Cfg) (hwf : CfgWF c) (htw : TrapWF c) (hne : c.edgeworth = [])
+    (w : W) : Strict c (clipBounds c.lo c.hi (finalize c w)) := by
+  by_cases hnt : c.trapezoid = []
+  · exact C01_strict_edgeworth_class c hwf hnt w
+  have hclipIn : InBounds c.sizes c.lo c.hi (clipBounds c.lo c.hi (finalize c w)) :=
+    fun idx _ => clipBounds_in c.lo c.hi hwf.bounds _ idx
+  -- some trapezoid trust exists, its main axis is monotone: the projection runs all stages
+  obtain ⟨t0, ht0⟩ : ∃ t, t ∈ c.trapezoid := by
+    cases h : c.trapezoid with
+    | nil => exact absurd h hnt
+    | cons a r => exact ⟨a, List.mem_cons_self ..⟩
+  obtain ⟨hwt0, hmain0⟩ := hwf.trust_wf t0 (List.mem_append_right _ ht0)
+  have hhas : hasMono c = true := by
+    have hmem : t0.main ∈ monoDims c.sizes c.mono := mem_monoDims.mpr ⟨hwt0.1, hmain0⟩
+    unfold hasMono
+    cases hl : monoDims c.sizes c.mono with
+    | nil => rw [hl] at hmem; cases hmem
+    | cons a r => rfl
+  have hnotboth : c.trapezoid.isEmpty = false := by
+    cases h : c.trapezoid with
+    | nil => exact absurd h hnt
+    | cons a r => simp
+  have hfin : finalize c w = approxBounds c.sizes c.lo c.hi
+      (approxTrapezoid c.sizes [] c.trapezoid (approxMono c.sizes c.mono w)) := by
+    unfold finalize
+    simp only [hhas, hnotboth, Bool.and_false, Bool.not_true, Bool.false_eq_true, if_false, hne,
+      approxEdgeworth, List.foldl_nil]
+  have hspec := approxTrapezoid_pe_spec (sizes := c.sizes) c.trapezoid
+    (fun tr h => ⟨(hwf.trust_wf tr (List.mem_append_right _ h)).1, (htw.sizes tr h).1, (htw.sizes tr h).2⟩)
+    htw.roles (approxMono c.sizes c.mono w) [] (by simp) (by simp) (by simp)
+  have haff := approxBounds_affine c.sizes c.lo c.hi hwf.bounds
+    (approxTrapezoid c.sizes [] c.trapezoid (approxMono c.sizes c.mono w))
+  have hag : AgreeOn c.sizes (finalize c w) (clipBounds c.lo c.hi (finalize c w)) := by
+    intro idx hr
+    have hb := approxBounds_in c.sizes c.lo c.hi hwf.bounds
+      (approxTrapezoid c.sizes [] c.trapezoid (approxMono c.sizes c.mono w)) hr
+    rw [← hfin] at hb
+    exact (clipBounds_fix c.lo c.hi _ idx hb.1 hb.2).symm
+  refine ⟨fun d hd hm => ?_, by rw [hne]; exact fun _ h => (by cases h), fun tr htr => ?_, hclipIn⟩
+  · apply clipBounds_mono
+    rw [hfin]
+    exact haff.mono (hspec.2 d hd (approxMono_mono c.sizes c.mono w hd hm))
+  · refine TrapOK.congr hag ?_
+    rw [hfin]
+    exact AffinePos_trapOK haff (hspec.1 tr (Or.inr htr))
+
+/-- class (B) on the EXECUTABLE model -/
+theorem C01_exec_trapezoid_class (c : Cfg) (hwf : CfgWF c) (htw : TrapWF c) (hne : c.edgeworth = [])
+    (t : Table) : Strict c (runStage c.sizes (clipBounds c.lo c.hi) (finalizeT c t)).get := by
+  have hag : AgreeOn c.sizes (runStage c.sizes (clipBounds c.lo c.hi) (finalizeT c t)).get
+      (clipBounds c.lo c.hi (finalize c t.get)) :=
+    runStage_agree (clipBounds_local c.sizes c.lo c.hi)
+      (finalizeT_agree c (fun tr h => by have := (htw.sizes tr h).1; omega) (AgreeOn.refl _ _))
+  obtain ⟨h1, _, h3, h4⟩ := C01_strict_trapezoid_class c hwf htw hne t.get
+  refine ⟨fun d hd hm => (h1 d hd hm).congr hag.symm, by rw [hne]; exact fun _ h => (by cases h),
+    fun tr htr => TrapOK.congr hag.symm (h3 tr htr), fun idx hr => ?_⟩
+  rw [hag idx hr]; exact h4 idx hr
+
+
 /-! ### non-vacuity: a rank-3, two-trust configuration with both directions meets `CfgWF` -/
 def exampleCfg : Cfg :=
   { sizes := [3, 2, 3], mono := [true, false, true],
@@ -194,6 +255,23 @@ example : CfgWF exampleCfg where
 example : Table.vals exampleCfg.sizes (finalizeT exampleCfg
     (Table.ofVals exampleCfg.sizes [3,0,1, 0,2,0, 0,1,5, 1,0,0, 2,2,2, 0,0,1]))
     ≠ [3,0,1, 0,2,0, 0,1,5, 1,0,0, 2,2,2, 0,0,1] := by decide +kernel
+
+/-- a class-(B) configuration: two trapezoid trusts sharing the conditional axis 1 -/
+def exampleTrapCfg : Cfg :=
+  { sizes := [2, 3, 2], mono := [true, false, true],
+    trapezoid := [⟨0, 1, true⟩, ⟨2, 1, false⟩], hi := some 2 }
+example : TrapWF exampleTrapCfg where
+  sizes := by
+    intro tr h
+    simp only [exampleTrapCfg, List.mem_cons, List.not_mem_nil, or_false] at h
+    rcases h with rfl | rfl <;> exact ⟨by decide, by decide⟩
+  roles := by
+    intro a ha b hb
+    simp only [exampleTrapCfg, List.mem_cons, List.not_mem_nil, or_false] at ha hb
+    rcases ha with rfl | rfl <;> rcases hb with rfl | rfl <;> decide
+example : Table.vals exampleTrapCfg.sizes (finalizeT exampleTrapCfg
+    (Table.ofVals exampleTrapCfg.sizes [3,0, 1,0, 2,0, 0,1, 5,1, 0,0]))
+    ≠ [3,0, 1,0, 2,0, 0,1, 5,1, 0,0] := by decide +kernel
 
 /-! ### finding F-C01-a: the unrestricted statement is false -/
 def witnessCfg : Cfg :=
